@@ -365,7 +365,7 @@ def shard_task(sh, part):
         args = pipe.make_args(data_path=dpath, output_folder=out_dir, minibatch_size=B, subsampling=sub, heuristic=rng.choice(['MI-numba-randomized', 'max-value-coverage', 'correlation-Pearson']),
                               target_ranking_only=rng.choice(['True', 'False']), include_cardinality_in_feature_names=annotate, combination_number_upper_bound=10 ** 6)
         rec = Recorder(cr, cwd)
-        tr.Pool = lambda n: pipe.SyncPool()
+        tr.Pool = lambda *a_, **k_: pipe.SyncPool()
         tr.estimate_importances_minibatches = cr.estimate_importances_minibatches
         if run % 2:
             # through the command-line entry point (argument parsing and task dispatch included)
